@@ -519,7 +519,7 @@ Observed observe(World& W, const Op& op, int seedShift, Ctx* c, bool judge13, lo
     int nbsimu = 1 + (int)(op.I(3, 0) % 2);
     int nc = W.dbout->getColumnNumber();
     NeighUnique* nu = NeighUnique::create();
-    o.ret = simpgs(din, W.dbout, rp, m1, m2, nu, nbsimu, seed, false, false, false, false, 20 + b % 30, 5, 20 + a % 20);
+    o.ret = simpgs(din, W.dbout, rp, m1, m2, nu, nbsimu, seed, getenv("SIMKIT_DEBUG_PGS_GAUS") != nullptr, false, false, false, 20 + b % 30, 5, 20 + a % 20);
     o.digest = std::to_string(o.ret) + newColumnsDigest(W.dbout, nc);
     o.freeDefined = freeDefinedValues(W, nc);
     if (getenv("SIMKIT_DEBUG_SIM") && din)
@@ -534,6 +534,13 @@ Observed observe(World& W, const Op& op, int seedShift, Ctx* c, bool judge13, lo
         fprintf(stderr, "\n");
       }
       DbGrid* gg = dynamic_cast<DbGrid*>(W.dbout);
+      fprintf(stderr, "simpgs seed=%d nbsimu=%d ret=%d a=%ld b=%ld rho=%g nfac=%d\n", seed, nbsimu, o.ret, a, b, rule->getRho(), nfac);
+      for (int it = 0; it < W.dbout->getSampleNumber(); it++)
+      {
+        fprintf(stderr, "node %d active=%d :", it, (int)W.dbout->isActive(it));
+        for (int ic = nc; ic < W.dbout->getColumnNumber(); ic++) fprintf(stderr, " %.5g", W.dbout->getValueByColIdx(it, ic));
+        fprintf(stderr, "\n");
+      }
       for (int i = 0; gg && i < din->getSampleNumber(); i++)
       {
         int node = gg->coordinateToRank(din->getSampleCoordinates(i), false, 1e-9);
@@ -564,7 +571,9 @@ Observed observe(World& W, const Op& op, int seedShift, Ctx* c, bool judge13, lo
           {
             char bb[200];
             snprintf(bb, sizeof bb, "datum %d observed facies %g simulated %g (column %s)", i, fac[i], f, W.dbout->getNameByColIdx(ic).c_str());
-            c->violation("C13|facies-at-data-differs|simpgs", bb);
+            // the correlated case is a different mechanism (the Gibbs sampler draws the decorrelated second function,
+            // the conversion to facies thresholds the simulated one): kept apart so that one does not hide the other
+            c->violation(std::string("C13|facies-at-data-differs|simpgs") + (rule->getRho() != 0. ? "|correlated-functions" : ""), bb);
             ic = W.dbout->getColumnNumber();
             i = 1000;
           }
